@@ -50,6 +50,10 @@ CLAIMED = {
    text="on the C05 pipeline: for every string-like type (enums with odd/renamed/keyword values, plain and constrained string newtypes, untagged enums of string alternatives, formatted natives) and every probe string, TLC validates that each conversion the rendered output offers (FromStr, TryFrom<&str>, TryFrom<String>, TryFrom<&String>) succeeds exactly when deserialising the JSON string does, with the same value, and that Display equals the serialised string",
    note="bounded as C05; conversions are probed only where the syn inventory shows the impl; trusted: TLC, rustc, serde, syn, vdrive",
    ref="DESIGN.md 6 C11"),
+ "C06": dict(
+   text="TLC enumerates (type kind, default value, position) cases, classifies each default with Schema!Valid on the site's schema (cross-checked against jsonschema) and the real typify ingests the document; the generated code is compiled and the three realisation sites are executed (deserialising an object without the member, Default::default(), the empty builder); TLC validates the recorded events against the C06 contract: an invalid default makes ingestion fail, a valid accepted default neither breaks rendering nor compilation and every realisation equals the schema default up to nested defaults and is valid",
+   note="bounded: 73 (kind, value) pairs x 2 positions; trusted: TLC, Schema.tla (self-checked), rustc, serde, vdrive",
+   ref="DESIGN.md 6 C06"),
 }
 NA_REASON = {}
 DEFAULT_NA = "check under construction in this session (DESIGN.md 11); not yet claimed"
